@@ -183,6 +183,22 @@ fn gen(tier: &str, rng: &mut Sm) -> Gen {
             g.inputs.push(tl![a(rng.next() >> 1), au(if s.is_empty() { 1 } else { n }), tl![A(5), au(fl), tv(s)]]);
         }
     }
+    if thorough {
+        // random sources with duplicates, every flavour
+        for fl in 0..NFLAVOURS - 1 {
+            for len in [1usize, 2, 3, 4, 6] {
+                for _ in 0..2 {
+                    let src: Vec<i64> = (0..len).map(|_| rng.range(0, 3)).collect();
+                    g.inputs.push(tl![a(rng.next() >> 1), au(n / 4), tl![A(5), au(fl), tv(&src)]]);
+                }
+            }
+        }
+        for size in [3usize, 5, 64, 257] {
+            for kind in 0..5i64 {
+                g.inputs.push(tl![a(rng.next() >> 1), au(40), tl![a(kind), au(size), tv(&[1, 2])]]);
+            }
+        }
+    }
     // sources of millions of members (every Vec / slice flavour), judged by residue classes of the index
     for (members, m) in [(3i64 << 23, 3i64), (1 << 25, 2), ((1 << 24) + 1, 5)] {
         for fl in [0usize, 1, 2, 3, 4, 10, 11, 12, 13] {
